@@ -220,6 +220,10 @@ TABLE = {
         ("alias-constant-encoding", IO, "    return ListOfDicts.read_json(path,\n                                 encoding=encoding,", "    return ListOfDicts.read_json(path,\n                                 encoding=\"utf-8\",", V, "FWD-alias"),
         ("read_csv-request-order-names", LO, "                colnames = [x for x in colnames if x in keys]", "                colnames = keys", V, "TNT-order"),
         ("from_json-columns-ignored", DF, "        if columns:\n            keys = [x for x in keys if x in columns]\n", "", V, "FWD-live"),
+        ("geojson-validates-before-geometry", GE, "        if columns:\n            data = {k: v for k, v in data.items() if k in columns}",
+         "        if columns:\n            missing = [x for x in columns if x not in data]\n            if missing:\n                raise KeyError(missing)\n            data = {k: v for k, v in data.items() if k in columns}", V, "RESTR-raise"),
+        ("geojson-validates-knowing-geometry", GE, "        if columns:\n            data = {k: v for k, v in data.items() if k in columns}",
+         "        if columns:\n            missing = [x for x in columns if x not in data and x != \"geometry\"]\n            if missing:\n                raise KeyError(missing)\n            data = {k: v for k, v in data.items() if k in columns}", NV, None),
         ("alias-other-target", IO, "    return DataFrame.read_npz(path, allow_pickle=allow_pickle)", "    return DataFrame.read_npz(path, allow_pickle=True)", V, "FWD-alias"),
     ],
     "C15": [
